@@ -121,6 +121,7 @@ unsafe impl GlobalAlloc for Alloc {
         let limit = self.limit.load(Ordering::Acquire);
         let new_used = self.used.fetch_add(new_size, Ordering::Acquire) + new_size;
         if new_used <= limit {
+            self.max.fetch_max(new_used, Ordering::Relaxed);
             let result = self.parent.realloc(ptr, old_layout, realloc_size);
             if result.is_null() {
                 self.used.fetch_sub(new_size, Ordering::Release);
